@@ -46,6 +46,8 @@ class SimClock:
         self.first = self.now
         self._rng = random.Random(s["seed"]) if s["kind"] == "jitter" else None
         self.log = None      # optional list of readings (filled when not None)
+        self.interrupt_at = None
+        self.interrupts_fired = 0
 
     def _advance(self):
         s = self.schedule
@@ -68,6 +70,11 @@ class SimClock:
     def read(self):
         if self.reads >= self.max_reads:
             raise StepBudgetExceeded("clock readings")
+        if self.interrupt_at is not None and self.reads >= self.interrupt_at:
+            # the user's interrupt (SIGINT) is delivered while the algorithm is at this clock reading
+            self.interrupt_at = None
+            self.interrupts_fired += 1
+            raise KeyboardInterrupt("simulated interrupt at clock reading %d" % self.reads)
         if self.reads > 0:
             self._advance()
         self.reads += 1
@@ -155,6 +162,12 @@ class ClockSeam:
             return f
         for n in _CLOCK_FUNCS + _CLOCK_FUNCS_NS + ("sleep",):
             setattr(_real_time, n, dispatcher(n))
+        # `timeit.default_timer` is the builtin perf_counter bound at import time of timeit
+        try:
+            import timeit
+            timeit.default_timer = getattr(_real_time, "perf_counter")
+        except Exception:
+            pass
         self._installed = True
 
     def use(self, clock: SimClock):
@@ -207,15 +220,26 @@ class LogSeam:
         lg.propagate = False
 
 
+FAULT_EXCEPTIONS = {"InjectedFault": InjectedFault, "KeyError": KeyError, "MemoryError": MemoryError,
+                    "KeyboardInterrupt": KeyboardInterrupt}
+
+
+def make_fault(name, msg):
+    """The exception a simulated component raises: an ordinary error, a lookup error (the natural failure of a
+    dict-backed valueof), a failed allocation, or the user's interrupt (SIGINT) arriving at that instant."""
+    return FAULT_EXCEPTIONS.get(name, InjectedFault)(msg)
+
+
 class FaultyValueOf:
     """valueof over a mapping (or identity) that raises InjectedFault at its k-th invocation.
 
     Also the deterministic step counter: raises StepBudgetExceeded after max_calls.
     """
 
-    def __init__(self, mapping=None, fail_at=None, max_calls=10 ** 7):
+    def __init__(self, mapping=None, fail_at=None, max_calls=10 ** 7, exc="InjectedFault"):
         self.mapping = mapping
         self.fail_at = fail_at
+        self.exc = exc
         self.calls = 0
         self.max_calls = max_calls
         self.fired = 0
@@ -226,7 +250,7 @@ class FaultyValueOf:
             raise StepBudgetExceeded("valueof calls")
         if self.fail_at is not None and self.calls == self.fail_at:
             self.fired += 1
-            raise InjectedFault(f"valueof failed at invocation {self.calls}")
+            raise make_fault(self.exc, f"valueof failed at invocation {self.calls}")
         if self.mapping is None:
             return item
         return self.mapping[item]
@@ -327,6 +351,8 @@ class SimSolver:
                 raise mip.InterfacingError("simulated solver interface failure")
             if m["exc"] == "MemoryError":
                 raise MemoryError("simulated allocation failure in solver")
+            if m["exc"] == "KeyboardInterrupt":
+                raise KeyboardInterrupt("simulated user interrupt during the solve")
             raise InjectedFault("simulated solver failure")
         if mode == "sim_timeout":
             try:
